@@ -716,6 +716,30 @@ fn read_level(
                     }
                     SubFound::Help => {
                         broken.insert(Rule::Help);
+                        // the words after `help` name a path of subcommands; a word that names none
+                        // at its level is an unknown subcommand rather than a request for help
+                        let mut at = c;
+                        for (wi, w) in argv[i + 1..].iter().enumerate() {
+                            if w == b"--" {
+                                break;
+                            }
+                            if w == b"help" && !at.subs.iter().any(|sc| sc.name == "help") {
+                                // the generated `help` exists where there are subcommands, and has
+                                // nothing below it
+                                if at.subs.is_empty() || argv.get(i + 2 + wi).map(|n| n != b"--").unwrap_or(false) {
+                                    broken.insert(Rule::Unknown);
+                                }
+                                break;
+                            }
+                            let next = std::str::from_utf8(w).ok().and_then(|n| at.subs.iter().find(|sc| sc.name == n || sc.aliases.iter().chain(sc.visible_aliases.iter()).any(|al| al == n)));
+                            match next {
+                                Some(sc) => at = sc,
+                                None => {
+                                    broken.insert(Rule::Unknown);
+                                    break;
+                                }
+                            }
+                        }
                         // the help subcommand consumes the rest of the line
                         finish_level(c, &inh, &mut lv, broken);
                         return lv;
